@@ -93,8 +93,8 @@ class G:
             self.note("wideratio")
             nn, nd = r.choice([(1, 2), (2, 1), (2, 2), (3, 2), (1, 3), (3, 3)])
             small = lambda: ("int", r.choice([1, 2, 3, 7, 2 ** 32, 2 ** 63]))  # noqa: E731
-            return ("wideratio", [self.expr(U, d - 1) if r.random() < 0.5 else small() for _ in range(nn)],
-                    [self.expr(U, d - 1) if r.random() < 0.3 else small() for _ in range(nd)])
+            return self.wide_guard(("wideratio", [self.expr(U, d - 1) if r.random() < 0.5 else small() for _ in range(nn)],
+                                    [self.expr(U, d - 1) if r.random() < 0.3 else small() for _ in range(nd)]))
         if self.cfg.call_bias and r.random() < self.cfg.call_bias:
             callable_ = [s for s in self.subs if s.ret == ty and self.can_call(s)]
             if callable_:
@@ -138,9 +138,21 @@ class G:
             return self.call(s, d)
         if self.cfg.wide and ty == U and self.cfg.version >= 5:
             self.note("wideratio")
-            return ("wideratio", [self.expr(U, d - 1) for _ in range(r.choice([1, 2, 3]))],
-                    [self.expr(U, d - 1) for _ in range(r.choice([1, 2]))])
+            return self.wide_guard(("wideratio", [self.expr(U, d - 1) for _ in range(r.choice([1, 2, 3]))],
+                                    [self.expr(U, d - 1) for _ in range(r.choice([1, 2]))]))
         return self.leaf(ty)
+
+    def wide_guard(self, n):
+        """The source semantics evaluates every factor of a WideRatio and multiplies afterwards, the emitted code multiplies while it
+        evaluates: the two readings part when a running product overflows BEFORE a later factor leaves the program successfully
+        (Lean: `wide_exit_counterexample`; C16's wording, 'every running product taken left to right', is the code's). Factors after the
+        first two numerators therefore hold no successful exit and no call, so that both readings agree on every generated program."""
+        def leaves(e):
+            if isinstance(e, tuple) and e and e[0] in ("exit", "ret", "approve", "reject", "call"):
+                return True
+            return isinstance(e, (tuple, list)) and any(leaves(x) for x in e if isinstance(x, (tuple, list)))
+        fix = lambda e: ("int", self.r.choice([1, 2, 3, 7])) if leaves(e) else e  # noqa: E731
+        return ("wideratio", n[1][:2] + [fix(e) for e in n[1][2:]], [fix(e) for e in n[2]])
 
     def can_call(self, s):
         if self.no_calls:
